@@ -255,6 +255,62 @@ def w_products(task):
     return part
 
 
+def w_products_tuple(task):
+    """per-operand (tuple-valued) bounds: each axis must be the 1-D call with ITS OWN bounds."""
+    fa = setup_repo_import()
+    part = new_part()
+    u = fa.utils
+    dtname = task["dtype"]
+    t = DT[dtname]
+    B = [(t(1), t(10)), (t(2), t(8)), (t(-3), t(4)), (t(-5), t(7)), (t(0.5), t(3)), (t(-9), t(-2))]
+    for sizes in ((6, 7, 8), (9, 6, 7)):
+        for i0 in range(len(B)):
+            b = [B[(i0 + k) % len(B)] for k in range(4)]
+            case = {"kind": "product-tuple", "dtype": dtname, "sizes": list(sizes), "i0": i0}
+            part["evaluations"] += 1
+            part["nontrivial"] += 1
+            try:
+                with np.errstate(all="ignore"):
+                    one = lambda n, bb: u.real_samples(n, dtype=t, min_value=bb[0], max_value=bb[1])
+                    # pairs
+                    s1, s2 = u.real_pair_samples(tuple(sizes[:2]), dtype=t, min_value=(b[0][0], b[1][0]), max_value=(b[0][1], b[1][1]))
+                    a1, a2 = one(sizes[0], b[0]), one(sizes[1], b[1])
+                    if not (same(s1, np.tile(a1, a2.size)) and same(s2, np.repeat(a2, a1.size))):
+                        add_violation(part, f"real_pair_samples:{dtname}:per-operand-bounds:not-cartesian-product", f"real_pair_samples({sizes[:2]}, min={(b[0][0], b[1][0])}, max={(b[0][1], b[1][1])}) is not the product of the 1-D samples with the respective bounds", case)
+                    # triples
+                    x, y, z = u.real_triple_samples(tuple(sizes), dtype=t, min_value=(b[0][0], b[1][0], b[2][0]), max_value=(b[0][1], b[1][1], b[2][1]))
+                    a3 = one(sizes[2], b[2])
+                    G = np.meshgrid(a1, a2, a3, indexing="ij")
+                    if not (same(x, G[0].ravel()) and same(y, G[1].ravel()) and same(z, G[2].ravel())):
+                        add_violation(part, f"real_triple_samples:{dtname}:per-operand-bounds:not-cartesian-product", f"real_triple_samples({sizes}) with per-operand bounds {b[:3]}", case)
+                    if dtname != "float16":
+                        # complex: different real / imaginary bounds
+                        zc = u.complex_samples(tuple(sizes[:2]), dtype=t, min_real_value=b[0][0], max_real_value=b[0][1], min_imag_value=b[1][0], max_imag_value=b[1][1])
+                        if not (zc.shape == (a2.size, a1.size) and same(zc.real, np.tile(a1, (a2.size, 1))) and same(zc.imag, np.repeat(a2, a1.size).reshape(a2.size, a1.size))):
+                            add_violation(part, f"complex_samples:{dtname}:different-real-imag-bounds:not-cartesian-product", f"complex_samples({sizes[:2]}) real bounds {b[0]} imag bounds {b[1]}", case)
+                        # complex pairs with per-operand bounds on both axes
+                        z1, z2 = u.complex_pair_samples((tuple(sizes[:2]), tuple(sizes[1:3])), dtype=t, min_real_value=(b[0][0], b[1][0]), max_real_value=(b[0][1], b[1][1]),
+                                                        min_imag_value=(b[2][0], b[3][0]), max_imag_value=(b[2][1], b[3][1]))
+                        za = u.complex_samples(tuple(sizes[:2]), dtype=t, min_real_value=b[0][0], max_real_value=b[0][1], min_imag_value=b[2][0], max_imag_value=b[2][1])
+                        zb = u.complex_samples(tuple(sizes[1:3]), dtype=t, min_real_value=b[1][0], max_real_value=b[1][1], min_imag_value=b[3][0], max_imag_value=b[3][1])
+                        ui = FMT[dtname]["ui"]
+
+                        def keyz(zz):
+                            return np.stack([np.ascontiguousarray(zz.real).ravel().view(ui), np.ascontiguousarray(zz.imag).ravel().view(ui)], 1)
+
+                        if z1.shape != z2.shape or z1.size != za.size * zb.size:
+                            add_violation(part, f"complex_pair_samples:{dtname}:per-operand-bounds:wrong-size", f"{z1.shape} vs {za.shape} x {zb.shape}", case)
+                        else:
+                            got = np.unique(np.concatenate([keyz(z1), keyz(z2)], 1), axis=0)
+                            exp = np.unique(np.concatenate([np.repeat(keyz(za), zb.size, 0), np.tile(keyz(zb), (za.size, 1))], 1), axis=0)
+                            if got.shape != exp.shape or not (got == exp).all():
+                                add_violation(part, f"complex_pair_samples:{dtname}:per-operand-bounds:not-cartesian-product", f"complex_pair_samples with real bounds {(b[0], b[1])}, imag bounds {(b[2], b[3])} is not the product of the two complex_samples grids", case)
+            except Exception as e:
+                add_violation(part, f"product-generators:{dtname}:per-operand-bounds:raises:{type(e).__name__}", f"{type(e).__name__}: {str(e)[:200]} (sizes {sizes}, bounds {b})", case)
+    part["samples"].append({"per_operand_bounds": dtname, "bounds": [[float(x) for x in bb] for bb in B[:4]]})
+    return part
+
+
 def flagsets(user_bounds, full):
     out = []
     if user_bounds:
@@ -301,6 +357,7 @@ def run(run):
         for i in range(0, len(cfgs), 6):
             tasks.append(dict(dtype=dtname, configs=cfgs[i:i + 6]))
     run.map(MOD, "w_products", tasks)
+    run.map(MOD, "w_products_tuple", [dict(dtype=d) for d in ("float16", "float32", "float64")])
     run.rule = (
         "real_samples over the full product size in {6..24,51,100,1000, N_repr-1,N_repr,N_repr+1 (float16)} x (min,max) in {None, +-largest, +-2, +-1, "
         "+-smallest normal, +-3*subnormal, +-smallest subnormal, +-0}^2 x flag sets (all 128 without bounds; include_zero x include_subnormal x unique "
@@ -318,6 +375,9 @@ def replay(case):
     t = DT[case["dtype"]]
     if case["kind"] == "real":
         judge_real(fa, part, case["dtype"], case["size"], unkey(case["min"], t), unkey(case["max"], t), tuple(case["flags"]))
+    elif case["kind"] == "product-tuple":
+        p2 = w_products_tuple(dict(dtype=case["dtype"]))
+        part["violations"] = p2["violations"]
     else:
         p2 = w_products(dict(dtype=case["dtype"], configs=[(case["sizes"], case["min"], case["max"], case["flags"])]))
         part["violations"] = p2["violations"]
